@@ -137,6 +137,9 @@ def tasks(tier, seed):
                 out.append(t("RandomDictator", m, sup, "random_dictator"))
                 if len(sup) <= 3 or m == 1:
                     out.append(t("BoostedRandomDictator", m, sup, "boosted_random_dictator"))
+    # four candidates: the second seat's branch is not forced (c = 3 after the first seat)
+    out.append(t("BoostedRandomDictator", 2, F.fam("A>B", "B>C>D", "D"), "boosted_random_dictator", cands=C.K4, budget_s=900))
+    out.append(t("RandomDictator", 2, F.fam("A>B", "B>C>D", "D"), "random_dictator", cands=C.K4))
     if not q:
         f4 = F.fam("A>B", "B>C>D", "CD>A", "D")
         for sup in supports_of([f4], sizes=(2, 3)):
